@@ -56,6 +56,65 @@ CLAIMED = {
        "before the dispatcher is started.",
   note="Assumed: the zxcvbn scorer is an uninterpreted function of (password, [username, 'whawty']); float thresholds are exact; policy objects are only built by newZXCVBNPolicy.",
   design="3 C17"),
+ "C01": dict(
+  text="Deductive proof over the real store code under a relational file-system model: Authenticate's verdict is exactly 'the user's file exists (.admin first), its first line parses as a record of a configured "
+       "parameter set with matching format id, and that set's hasher accepts the password' (both directions; the 'if' direction when no system call fails spuriously), with admin flag, last-changed time and upgradeable "
+       "read from that record; add/update write exactly '<fmt>:<now>:<default id>:<Generate(pw)>' + old auxiliary lines, set-admin renames the same inode, remove unlinks both names, every other name and every existing "
+       "inode untouched; both hashers are verified against the interface verdict (full password, full salt, full-length constant-time compare). Lemmas over these contracts: a written record parses back to the written "
+       "fields, and authenticating after a write succeeds iff the algorithm maps both passwords to the same digest under the stored salt. List reports exactly the valid-named entries with supported hashes (nested-loop invariants). "
+       "The statement for every finite history is the induction over these per-operation view clauses.",
+  note="Assumed: the file-system model and os/bufio contracts (DESIGN App. A), argon2id/scrypt/HMAC as uninterpreted functions (which passwords collide inside the primitive is the cryptographic assumption the property names), "
+       "base64 round trip, path algebra for schema-valid names, hasher objects immutable after construction, one writer at a time.",
+  design="3 C01"),
+ "C02": dict(
+  text="Deductive proof that for an arbitrary (symbolic) file content authentication succeeds only if the first line cuts into four fields at the first three ':' with decimal time and id, the id names a configured "
+       "parameter set whose format id equals the first field and whose hasher accepts (base64 decoding of both halves, exactly one ':' in the hash string, digest equality); panic-freedom obligations on every index/slice/"
+       "nil/type-assertion of the parser, decoders and hashers; update refuses unsupported hashes leaving all entries and data untouched, add refuses existing files whatever they contain, remove unlinks regardless of "
+       "content, List hides unsupported files; lemma record-format: a line written by any implementation as f:t:i:h is read back as exactly those fields (the converse direction).",
+  note="Assumed: strings.SplitN/Split as first-':' cuts, strconv/base64 contracts, file-system model. Not decided: 'never a hang' (library calls are assumed to terminate; the functions have no loops); ListFull's "
+       "'shown as unsupported' is covered only by its read-only frame.",
+  design="3 C02"),
+ "C03": dict(
+  text="Deductive proof: every UserHash/Dir operation with a name outside the schema grammar is an error or a no-op with the entry map unchanged, never authenticates, and Check counts only valid-named admin files; "
+       "a path-frame obligation at EVERY file-system primitive reached (stat/open/openfile/mkdir/createtemp/write/sync/rename/remove, including deferred calls and helpers) shows its path is <base>/<name>.user, "
+       "<base>/<name>.admin, <base>, <base>/.tmp or a file in <base>/.tmp with a schema-valid name; structural obligation: the regular expression the code compiles is literally the schema grammar; lemma: the grammar "
+       "excludes '/', ':', NUL, empty, '.', '..', leading '.' and '-'.",
+  note="Assumed: filepath.Join/Dir/Clean facts for valid names only (for any other name Join is unconstrained, so no primitive may be reachable); hand translation of the regex literal into an SMT regular expression. "
+       "Frontends: follows from C04 (they accept only what the store accepted).",
+  design="3 C03"),
+ "C08": dict(
+  text="Deductive proof of a crash invariant after EVERY file-system primitive of writeHashStr (open/create, mkdir, createtemp, write, copy, fsync, rename, directory fsync, deferred close/remove) - i.e. at every "
+       "system-call boundary, no enumeration: the target shows its entry content (same inode, same data), or an empty reservation (add only), or the complete new record plus all auxiliary lines whose data is already "
+       "fsynced at the moment it is linked; every other final name keeps its inode and every existing inode its data; only .tmp gains entries. Add, Update, Init inherit it through the contract.",
+  note="Assumed: the persistence model (data durable after fsync(file), entries after fsync(dir); rename/unlink/O_EXCL create atomic), single writer. 'Old password works until the new one does' is the lemma C01 "
+       "applied to those three contents.",
+  design="3 C08"),
+ "C09": dict(
+  text="Deductive proof of 'success implies durable' postconditions: after a successful writeHashStr/Add/Update the base directory's entries are fsynced and the target inode's data is fsynced (and C08: it was "
+       "fsynced before it was linked); after SetAdmin and Remove (when they changed anything) the base directory is fsynced.",
+  note="Assumed: persistence model. Remove reports nothing, so its clause holds when its fsync did not fail spuriously.",
+  design="3 C09"),
+ "C14": dict(
+  text="Deductive proof: the record written is exactly '<GetFormatID>:<time.Now().Unix()>:<Default>:<Generate(pw)>\\n'; Generate of both hashers uses a fresh crypto/rand draw of 16 / 32 bytes as salt (short read or "
+       "error is an error), computes argon2id(pw, salt, Time, Memory, Threads, Length) resp. HMAC-SHA256(key, scrypt(pw, salt, 2^cost, R, P, 32)) and emits URL-safe base64 of both; the constructors copy the "
+       "configured parameters (r/p overrides only when > 0, standard-base64 key of 32 bytes, cost <= 31); the dependency scryptauth is verified from its source; what is written is a function of the password and the "
+       "key only through the hash function.",
+  note="Assumed: the x/crypto primitives compute the named functions; YAML field mapping (struct tags) is not checked here; distinct draws differ.",
+  design="3 C14"),
+ "C15": dict(
+  text="Deductive proof: read-only operations (exists, authenticate, check, list, list-full and the helpers) have an empty file-system frame (every ghost component proved unchanged, path frame allows only stat/open); "
+       "update keeps everything after the first line of the old file, set-admin keeps the inode; a failing add/update/set-admin leaves every final name as it was for EVERY single failing system call (each primitive "
+       "may fail on every path; one obligation per failing call site), semantic failures leave entries and data identical.",
+  note="Known findings (recorded, demonstrated with strace fault injection, see known_findings.txt): directory fsync failing after the rename in writeHashStr/SetAdmin, and cleanup of the add reservation failing. "
+       "Assumed: file-system model; 'single failure' is counted by a ghost fault counter.",
+  design="3 C15"),
+ "C16": dict(
+  text="Deductive proof with a loop invariant over the directory listing that Check accepts exactly when the base dir is a readable directory, every entry other than '.tmp' has extension .user/.admin, no "
+       "valid name has both, and some valid-named .admin file holds a supported hash (both directions; 'if' when no call fails spuriously); Init proceeds only on a directory with no entry other than a directory "
+       ".tmp and then creates the admin through AddUser; add refuses when either extension exists, set-admin moves, remove deletes both; the work area is left clean by a successful write; every CLI command "
+       "path through openAndCheck runs Check unless do-check is off.",
+  note="Assumed: Readdirnames/ReadDir enumerate exactly the entries. The validity-preservation statement over histories is the induction over the per-operation entry clauses of C01.",
+  design="3 C16"),
 }
 
 NOT_APPLICABLE = {
